@@ -8,6 +8,7 @@ import shutil
 
 import checks
 import gen
+import lrhint
 import oracles
 import vlib
 from checks import Result, short, decode_ok, disagreement
@@ -346,6 +347,52 @@ def g_to_file_canon(g, mt_line):
     return p
 
 
+# ---------------------------------------------------------------- validation of the real tables inside Coq
+
+def validate_real_tables(tag, entries):
+    """entries: [(label, parsed hook output, emitted text)].  For every grammar, a Gallina goal
+    `validate T ann ft = true` over the tables READ BACK FROM THE REAL EMITTED TEXT, with the crate's
+    own automaton and a brute-force FIRST table as untrusted hints; proved by vm_compute in one coqc run.
+    Returns (number validated, [labels that failed], log)."""
+    goals = []
+    for i, (label, parsed, text) in enumerate(entries):
+        try:
+            table = oracles.read_tables(text)
+            g = lrhint.validation_goal('g%d' % i, parsed, table=table)
+        except Exception as e:
+            g = None
+        goals.append(g)
+    d = os.path.join(vlib.BUILD, 'vm')
+    os.makedirs(d, exist_ok=True)
+    head = ['From Coq Require Import List. Import ListNotations.',
+            'From Kiki Require Import Data LR.Driver LR.Grammar LR.Inv LR.Validate.', 'Open Scope nat_scope.']
+
+    def compiles(idxs):
+        path = os.path.join(d, 'validate_%s_%d.v' % (tag, os.getpid()))
+        open(path, 'w').write('\n'.join(head + [goals[i] for i in idxs]) + '\n')
+        rc, out = vlib.sh(['timeout', '900', 'coqc', '-noglob', '-Q', vlib.COQ, 'Kiki', path], cwd=d, timeout=1000)
+        for ext in ('.v', '.vo', '.vok', '.vos', '.glob'):
+            try:
+                os.unlink(path[:-2] + ext)
+            except OSError:
+                pass
+        return rc == 0, out
+
+    idxs = [i for i, g in enumerate(goals) if g is not None]
+    bad = [entries[i][0] for i, g in enumerate(goals) if g is None]
+    ok, out = compiles(idxs)
+    if ok:
+        return len(idxs), bad, ''
+    good = 0
+    for i in idxs:                      # isolate the failing ones
+        ok1, out1 = compiles([i])
+        if ok1:
+            good += 1
+        else:
+            bad.append(entries[i][0])
+    return good, bad, out[-1500:]
+
+
 # ---------------------------------------------------------------- C01 / C02 / C03
 
 def behaviour_check(ctx, pid):
@@ -378,6 +425,14 @@ def behaviour_check(ctx, pid):
     m = vlib.run_model('run', mlines) if ctx.model_ok else [None] * len(srcs)
     mt = vlib.run_rust('mt', checks.hex_lines(srcs))
     hist = {}
+    entries = []
+    for i, (g, s, x) in enumerate(grammars):
+        parsed_i = oracles.parse_mt(mt[i])
+        if parsed_i is not None and not parsed_i['conflict']:
+            entries.append((i, parsed_i, decode_ok(x)))
+    nval, badval, vlog = validate_real_tables(pid, entries)
+    res.extra['real_tables_validated_in_coq'] = nval
+    checked = 0
     for i, ((g, s, x), ws) in enumerate(zip(grammars, inputs)):
         parsed = oracles.parse_mt(mt[i])
         ref = oracles.lalr_reference(parsed['file'], max_states=300) if parsed else None
@@ -399,6 +454,8 @@ def behaviour_check(ctx, pid):
             want, why = (None, None)
             if ref is not None:
                 want, why = expected_line(g, ref, pruned, productive_all, w)
+                if want is not None:
+                    checked += 1
             relevant = True
             if want is not None and got != want:
                 # attribute the failure to the property it violates
@@ -416,8 +473,12 @@ def behaviour_check(ctx, pid):
                 relevant = False
             if mres is not None and got != mres[j] and relevant:
                 res.disagreements.append(dict(kind='emitted-parser-run', src=s, input=w, impl=got, model=mres[j]))
+    for i in badval:
+        if not any(f.get('src') == srcs[i] for f in res.failures):
+            res.disagreements.append(dict(kind='validator-rejects-the-real-tables', src=srcs[i], log=short(vlog, 800)))
     res.extra['result_kinds'] = hist
     res.extra['grammars'] = len(grammars)
+    res.extra['inputs_checked_against_oracles'] = checked
     return res
 
 
